@@ -22,6 +22,8 @@ ASSUMPTIONS = [
     "NumPy/SciPy linear algebra is trusted for products, norms and eigenvalues",
     "elementary matrices (T, MZ, M, P, SU(2)) are re-implemented from the documented formulas in the harness",
     "inputs in the band [0.5*tol, 2*tol] around a validity tolerance are not generated (either answer is acceptable)",
+    "reconstruction budgets: 1e-11 * 2 n^2 (x10-100 for the compact / Mach-Zehnder / SU(n) routines) for inputs that are valid to "
+    "rounding, 1e-9-based for the near_valid class, 3e-7 for sun_compact on weakly coupled inputs (sqrt(1-|U00|^2) cancellation)",
 ]
 REQUIRED_MONITORS = ["post:takagi", "post:williamson", "post:bloch_messiah", "post:rectangular",
                      "post:rectangular_phase_end", "post:rectangular_MZ", "post:rectangular_symmetric",
@@ -186,7 +188,16 @@ def post_bloch_messiah(S, result):
 def _chk_unitary_rec(name, V, rec, extra=1.0):
     rep = _REP[0]
     V = np.asarray(V)
-    t = tolf(V, 1e-9) * extra * V.shape[0]
+    # unitary inputs of the valid classes are unitary to rounding, and the factorisations reproduce them to ~1e-13 (largest
+    # deviation seen over all routines and sizes: 8e-14): 1e-11 * 2 n^2; inputs that are valid only within the routines'
+    # tolerance are reproduced to the size of their own defect
+    near = (_CASE[0] or {}).get("cls") in ("near_valid",)
+    t = tolf(V, 1e-9 if near else 1e-11) * extra * V.shape[0]
+    if name == "sun_compact" and (_CASE[0] or {}).get("cls") == "weak_coupling":
+        # sun_compact obtains the last rotation angle from sqrt(1 - |U00|^2): for couplings of order 1e-8 the difference is
+        # of the order of the machine precision and the angle is only good to ~1.5e-8 (precision limit of the routine, seen
+        # as reconstruction errors up to 3e-8; not a wrong factorisation)
+        t = max(t, 3e-7)
     err = np.max(np.abs(rec - V))
     rep.dev(name + ".reconstruction", err, t)
     if err > t:
